@@ -198,11 +198,6 @@ theorem c08_seq_others_untouched (g : G) (op : Op) (j : Str)
   | set i r c => exact setState_find_other g i j r c h
   | resize n => show find j (resize g n).1.states = _; unfold resize; split <;> rfl
 
-/-- an op "removes `inst`" when it is a `SetState` of `inst` with a negative count -/
-def Removes (inst : Str) : Op → Prop
-  | .set i _ c => i = inst ∧ c < 0
-  | .resize _ => False
-
 /-- **Equal (or older) request ids are processed at most once**: once a report with id `rid` has been processed
     for an instance, then after ANY further operations (of any instances, in any order) that do not remove the
     instance, a report of it with an id `≤ rid` is refused. -/
@@ -249,5 +244,511 @@ theorem c08_seq_same_id_once (g : G) (inst : Str) (rid cur : Int) (ops : List Op
   obtain ⟨s, hs, hle⟩ := hkeep ops _ hstart hno
   rw [c08_seq_reqid_refused _ inst rid' cur' s hs h0' ⟨hr'.1, by omega⟩]
   exact ⟨rfl, rfl⟩
+
+/-- **The server never accepts beyond the limit**: an accepted report is registered as reported and leaves the
+    total within the limit (strictly below it unless the instance reported 0). -/
+theorem c08_seq_accept (g : G) (inst : Str) (rid cur : Int) (h : Inv g) (hc : InI32 cur)
+    (hpre : 0 ≤ cur → Pre g inst cur) (hacc : (setState g inst rid cur).2.accept = true) :
+    0 ≤ cur ∧ (setState g inst rid cur).1.count ≤ g.max ∧
+    (cur ≠ 0 → (setState g inst rid cur).1.count < g.max) ∧
+    (setState g inst rid cur).2 = ⟨true, cur, .none⟩ ∧
+    (find inst (setState g inst rid cur).1.states).map (·.count) = some cur := by
+  by_cases hneg : cur < 0
+  · cases hf : find inst g.states with
+    | none => rw [setState_remove_none g inst rid cur hneg hf] at hacc; cases hacc
+    | some s => rw [setState_remove_some g inst rid cur s hneg hf] at hacc; cases hacc
+  · have h0 : 0 ≤ cur := by omega
+    have hp := hpre h0
+    have hI : Inv (ensure g inst) := ⟨ensure_wf inst h.1, by rw [ensure_count, ensure_sum]; exact h.2⟩
+    rw [setState_report g inst rid cur h0] at hacc ⊢
+    by_cases hs : rid > 0 ∧ rid ≤ (stateOf g inst).requestId
+    · rw [report_stale _ _ _ _ _ hs] at hacc; cases hacc
+    · have hpre' : sumStates (ensure g inst).states ≤ (ensure g inst).max ∨
+          sumStates (ensure g inst).states - (stateOf g inst).count + cur ≤ 2147483647 := by
+        rw [ensure_sum, ensure_max, stateOf_count]; exact hp.2
+      rcases report_exact hI (ensure_find g inst) ⟨h0, hc.2⟩ (by rw [ensure_max]; exact hp.1) hpre' hs with
+        ⟨_, _, e⟩ | ⟨_, _, e⟩
+      · rw [e] at hacc; cases hacc
+      · rw [e] at hacc ⊢
+        have hd : sumStates (ensure g inst).states - (stateOf g inst).count + cur < (ensure g inst).max ∨
+            (sumStates (ensure g inst).states - (stateOf g inst).count + cur = (ensure g inst).max ∧ cur = 0) := by
+          simpa using hacc
+        rw [ensure_max] at hd
+        refine ⟨h0, ?_, ?_, ?_, ?_⟩
+        · show sumStates (ensure g inst).states - (stateOf g inst).count + cur ≤ g.max
+          omega
+        · intro hne
+          show sumStates (ensure g inst).states - (stateOf g inst).count + cur < g.max
+          omega
+        · show (⟨_, cur, .none⟩ : Reply) = ⟨true, cur, .none⟩
+          congr 1
+        · show (find inst (put inst _ (ensure g inst).states)).map (·.count) = some cur
+          rw [find_put_self]; rfl
+
+/-! ## 2. every sequence of operations (= every interleaving of atomic calls) -/
+
+/-- **`count = Σ per-instance counts` after every op sequence** (as `int32`s: exactly what `DebugInfo` prints as
+    `count` and `total`), for all limits, instances, request ids and counts, removals included. -/
+theorem c08_seq_total_mod (m : Int) (ops : List Op) (hm : InI32 m) (hops : ∀ op ∈ ops, OpI32 op) :
+    ModInv (run (G.init m) ops) := by
+  have : ∀ (ops : List Op) (g : G), ModInv g → (∀ op ∈ ops, OpI32 op) → ModInv (run g ops) := by
+    intro ops
+    induction ops with
+    | nil => intro g h _; exact h
+    | cons op rest ih =>
+      intro g h hops
+      exact ih (step g op) (c08_step_total_mod g op h (hops op (List.mem_cons_self ..)))
+        (fun o ho => hops o (List.mem_cons_of_mem _ ho))
+  exact this ops _ (init_modInv m hm) hops
+
+/-- one `OpOk` operation keeps the accounting exact and satisfies `count' ≤ max(count, max')` -/
+theorem c08_seq_bound (g : G) (op : Op) (h : Inv g) (hop : OpOk g op) :
+    Inv (step g op) ∧ ((step g op).count ≤ g.count ∨ (step g op).count ≤ (step g op).max) := by
+  cases op with
+  | set i r c =>
+    obtain ⟨h1, h2, h3⟩ := c08_setState_exact g i r c h hop.1 hop.2
+    refine ⟨h1, ?_⟩
+    show (setState g i r c).1.count ≤ g.count ∨ (setState g i r c).1.count ≤ (setState g i r c).1.max
+    rw [h3]; exact h2
+  | resize n =>
+    show Inv (resize g n).1 ∧ ((resize g n).1.count ≤ g.count ∨ _)
+    unfold resize
+    split
+    · exact ⟨⟨⟨hop.2, h.1.count, h.1.states, h.1.nodup⟩, h.2⟩, Or.inl (Int.le_refl _)⟩
+    · exact ⟨h, Or.inl (Int.le_refl _)⟩
+
+/-- **Exact accounting after every op sequence**: `count = Σ per-instance counts` as integers, whenever no
+    `int32` overflow can interfere (`SafeRun`: see `Pre`; discharged unconditionally by the two theorems below). -/
+theorem c08_seq_total (g : G) (ops : List Op) (h : Inv g) (hs : SafeRun g ops) : Inv (run g ops) := by
+  induction ops generalizing g with
+  | nil => exact h
+  | cons op rest ih => exact ih (step g op) (c08_seq_bound g op h hs.1).1 hs.2
+
+/-- **While the limit is unchanged the accepted counts sum to at most the limit**, and the total is exact:
+    from any state within its (non-negative) limit, after ANY sequence of reports and removals by any
+    instances with any request ids and any `int32` counts. No other hypothesis. -/
+theorem c08_seq_limit_unchanged (g : G) (ops : List Op) (h : Inv g) (hm : 0 ≤ g.max) (hle : g.count ≤ g.max)
+    (hops : ∀ op ∈ ops, ∃ i r c, op = .set i r c ∧ InI32 c) :
+    Inv (run g ops) ∧ (run g ops).max = g.max ∧ (run g ops).count ≤ g.max ∧
+    sumStates (run g ops).states ≤ g.max := by
+  induction ops generalizing g with
+  | nil => exact ⟨h, rfl, hle, h.2 ▸ hle⟩
+  | cons op rest ih =>
+    obtain ⟨i, r, c, rfl, hc⟩ := hops _ (List.mem_cons_self ..)
+    have hpre : 0 ≤ c → Pre g i c := fun _ => ⟨hm, Or.inl (h.2 ▸ hle)⟩
+    obtain ⟨h1, h2, h3⟩ := c08_setState_exact g i r c h hc hpre
+    have hle' : (step g (.set i r c)).count ≤ (step g (.set i r c)).max := by
+      show (setState g i r c).1.count ≤ (setState g i r c).1.max
+      rw [h3]; omega
+    have := ih (step g (.set i r c)) h1 (by show 0 ≤ (setState g i r c).1.max; rw [h3]; exact hm) hle'
+      (fun o ho => hops o (List.mem_cons_of_mem _ ho))
+    have h3' : (step g (.set i r c)).max = g.max := h3
+    rw [h3'] at this
+    exact this
+
+/-- the same from a freshly created flow control -/
+theorem c08_seq_limit_unchanged_init (m : Int) (ops : List Op) (hm : 0 ≤ m) (hm' : InI32 m)
+    (hops : ∀ op ∈ ops, ∃ i r c, op = .set i r c ∧ InI32 c) :
+    (run (G.init m) ops).count = sumStates (run (G.init m) ops).states ∧
+    sumStates (run (G.init m) ops).states ≤ m := by
+  have := c08_seq_limit_unchanged (G.init m) ops (init_inv m hm') hm (by simp [G.init]; exact hm) hops
+  exact ⟨this.1.2, this.2.2.2⟩
+
+/-- **With limit changes**: if every configured limit and every reported count is below 2^30, then for EVERY op
+    sequence the accounting is exact and every op satisfies `count' ≤ max(count, max')` (so a total above a
+    lowered limit can only come down, and `count ≤ max` is preserved while `max` is unchanged). -/
+theorem c08_seq_bounded (m : Int) (ops : List Op) (hm : 0 ≤ m ∧ m < 1073741824) (hops : ∀ op ∈ ops, Bounded op) :
+    Inv (run (G.init m) ops) ∧ SafeRun (G.init m) ops := by
+  have key : ∀ (ops : List Op) (g : G), Inv g → 0 ≤ g.max → g.max < 1073741824 → g.count < 1073741824 →
+      (∀ op ∈ ops, Bounded op) → Inv (run g ops) ∧ SafeRun g ops := by
+    intro ops
+    induction ops with
+    | nil => intro g h _ _ _ _; exact ⟨h, trivial⟩
+    | cons op rest ih =>
+      intro g h hm0 hm1 hc hops
+      have hb := hops op (List.mem_cons_self ..)
+      have hok : OpOk g op := by
+        cases op with
+        | set i r c =>
+          refine ⟨hb.1, fun _ => ⟨hm0, Or.inr ?_⟩⟩
+          have := sum_nonneg h.1.states
+          have h2 := h.2
+          have : 0 ≤ oldCount g i := by
+            unfold oldCount; cases hf : find i g.states with
+            | none => simp
+            | some s => exact (allOk_find h.1.states hf).1
+          have := hb.2
+          omega
+        | resize n => exact ⟨hb.1, by unfold InI32; have := hb.1; have := hb.2; omega⟩
+      obtain ⟨h1, h2⟩ := c08_seq_bound g op h hok
+      have hmax : 0 ≤ (step g op).max ∧ (step g op).max < 1073741824 := by
+        cases op with
+        | set i r c =>
+          show 0 ≤ (setState g i r c).1.max ∧ (setState g i r c).1.max < 1073741824
+          rw [setState_max]; exact ⟨hm0, hm1⟩
+        | resize n =>
+          show 0 ≤ (resize g n).1.max ∧ (resize g n).1.max < _
+          unfold resize; split
+          · exact hb
+          · exact ⟨hm0, hm1⟩
+      have hc' : (step g op).count < 1073741824 := by omega
+      obtain ⟨a, b⟩ := ih (step g op) h1 hmax.1 hmax.2 hc' (fun o ho => hops o (List.mem_cons_of_mem _ ho))
+      exact ⟨a, hok, b⟩
+  exact key ops (G.init m) (init_inv m (by unfold InI32; omega)) hm.1 hm.2 (by simp [G.init]) hops
+
+/-! ### interleavings of the atomic calls of any number of threads -/
+
+/-- **Reports and removals racing with each other**: whatever the threads (any number, any instances, equal
+    request ids included) and however their atomic calls interleave, the running total equals the `int32` sum
+    of the latest accepted per-instance counts — at quiescence and after every prefix. -/
+theorem c08_conc_total_mod (m : Int) (ts : List (List Op)) (l : List Op) (hm : InI32 m)
+    (hts : ∀ t ∈ ts, ∀ op ∈ t, OpI32 op) (hl : Interleave ts l) (k : Nat) :
+    ModInv (run (G.init m) (l.take k)) :=
+  c08_seq_total_mod m _ hm (fun op hop =>
+    let ⟨t, ht, hot⟩ := interleave_mem hl op (List.mem_of_mem_take hop)
+    hts t ht op hot)
+
+/-- … exactly, and within the limit, while the limit is unchanged (threads only report and remove) -/
+theorem c08_conc_total (m : Int) (ts : List (List Op)) (l : List Op) (hm : 0 ≤ m) (hm' : InI32 m)
+    (hts : ∀ t ∈ ts, ∀ op ∈ t, ∃ i r c, op = .set i r c ∧ InI32 c) (hl : Interleave ts l) (k : Nat) :
+    (run (G.init m) (l.take k)).count = sumStates (run (G.init m) (l.take k)).states ∧
+    sumStates (run (G.init m) (l.take k)).states ≤ m :=
+  c08_seq_limit_unchanged_init m _ hm hm' (fun op hop =>
+    let ⟨t, ht, hot⟩ := interleave_mem hl op (List.mem_of_mem_take hop)
+    hts t ht op hot)
+
+/-- … and with limit changes racing too, for bounded limits and counts -/
+theorem c08_conc_bounded (m : Int) (ts : List (List Op)) (l : List Op) (hm : 0 ≤ m ∧ m < 1073741824)
+    (hts : ∀ t ∈ ts, ∀ op ∈ t, Bounded op) (hl : Interleave ts l) (k : Nat) :
+    Inv (run (G.init m) (l.take k)) ∧ SafeRun (G.init m) (l.take k) :=
+  c08_seq_bounded m _ hm (fun op hop =>
+    let ⟨t, ht, hot⟩ := interleave_mem hl op (List.mem_of_mem_take hop)
+    hts t ht op hot)
+
+/-! ## 3. the judge the harness applies to the real code is satisfied by every step of the model -/
+
+/-- **Soundness of the judge**: on every state satisfying the representation invariant and every `int32`
+    argument, the model's `SetState` breaks none of the clauses of `KG.Spec.GlobalCount.violations`
+    (total, exact total and bound under `Pre`, accept within the limit, decrease applied, stale id refused and
+    state unchanged, ids increase, removal, latest, other instances untouched). -/
+theorem c08_judge_sound (others : List Str) (g : G) (i : Str) (r c : Int) (h : ModInv g) (hc : InI32 c) :
+    violations others g i r c (setState g i r c).2 (setState g i r c).1 = [] := by
+  have hmod := setState_modInv i r c h hc
+  have hInv : g.count = sumStates g.states → Inv g := fun e => ⟨h.1, e⟩
+  have cl1 : clTotal g i r c (setState g i r c).2 (setState g i r c).1 = true := by
+    unfold clTotal; exact decide_eq_true hmod.2
+  have cl2 : clExact g i r c (setState g i r c).2 (setState g i r c).1 = true := by
+    unfold clExact; apply decide_eq_true
+    intro hp he
+    exact (c08_setState_exact g i r c (hInv he) hc hp).1.2
+  have cl3 : clBound g i r c (setState g i r c).2 (setState g i r c).1 = true := by
+    unfold clBound
+    rw [Bool.and_eq_true]
+    refine ⟨decide_eq_true (setState_max g i r c), decide_eq_true ?_⟩
+    intro hp he
+    have := (c08_setState_exact g i r c (hInv he) hc hp)
+    rw [this.2.2]; exact this.2.1
+  have cl4 : clAccept g i r c (setState g i r c).2 (setState g i r c).1 = true := by
+    unfold clAccept; apply decide_eq_true
+    intro ha hp he
+    have := c08_seq_accept g i r c (hInv he) hc (fun h0 => hp h0) ha
+    rw [setState_max]
+    refine ⟨this.2.1, ?_, ?_, this.2.2.2.2⟩
+    · rw [this.2.2.2.1]
+    · rw [this.2.2.2.1]
+  have cl5 : clDecrease g i r c (setState g i r c).2 (setState g i r c).1 = true := by
+    unfold clDecrease; apply decide_eq_true
+    intro h0 hle hst
+    cases hf : find i g.states with
+    | none =>
+      -- unknown instance: `c ≤ 0`, so `c = 0`, registered as 0
+      have hc0 : c = 0 := by unfold oldCount at hle; rw [hf] at hle; simp at hle; omega
+      have he : (setState g i r c).2.err = .none := by
+        cases hh : (setState g i r c).2.err with
+        | none => rfl
+        | requestIDTooOld =>
+          obtain ⟨_, s, hs, _⟩ := c08_seq_reqid_only_stale g i r c hh
+          rw [hf] at hs; cases hs
+      have hl := setState_latest g i r c h.1 hc h0 he
+      rw [setState_report g i r c h0] at hl he ⊢
+      have hns : ¬ (r > 0 ∧ r ≤ (stateOf g i).requestId) := by
+        have : stateOf g i = ⟨0, 0⟩ := by unfold stateOf; rw [hf]
+        rw [this]; simp only; omega
+      rcases report_cases (ensure g i) i (stateOf g i) r c (ensure_wf i h.1).count (stateOf_ok i h.1) ⟨h0, hc.2⟩ hns with
+        ⟨_, hgt, _⟩ | ⟨_, e⟩
+      · have : (stateOf g i).count = 0 := by unfold stateOf; rw [hf]
+        omega
+      · rw [e]; refine ⟨?_, rfl, rfl⟩
+        show (find i (put i _ _)).map _ = _; rw [find_put_self]; rfl
+    | some s =>
+      have hns : ¬ (0 < r ∧ r ≤ s.requestId) := by
+        intro hh
+        have : stale g i r = true := (stale_iff g i r).2 ⟨s, hf, hh⟩
+        rw [this] at hst; cases hst
+      have hle' : c ≤ s.count := by unfold oldCount at hle; rw [hf] at hle; exact hle
+      obtain ⟨a, b, d, _⟩ := c08_seq_decrease g i r c s h.1 hf h0 hle' hns
+      exact ⟨by rw [a]; rfl, b, d⟩
+  have cl6 : clStale g i r c (setState g i r c).2 (setState g i r c).1 = true := by
+    unfold clStale; apply decide_eq_true
+    intro h0 hst
+    obtain ⟨s, hf, hid⟩ := (stale_iff g i r).1 hst
+    rw [c08_seq_reqid_refused g i r c s hf h0 hid]
+    exact ⟨rfl, rfl⟩
+  have cl7 : clIds g i r c (setState g i r c).2 (setState g i r c).1 = true := by
+    unfold clIds
+    rw [Bool.and_eq_true]
+    constructor
+    · apply decide_eq_true
+      intro _ he
+      obtain ⟨_, s, hs, hid⟩ := c08_seq_reqid_only_stale g i r c he
+      exact (stale_iff g i r).2 ⟨s, hs, hid⟩
+    · split
+      · rename_i hh
+        obtain ⟨h0, he⟩ := hh
+        -- the entry after the call
+        have hreg : ∃ s', find i (setState g i r c).1.states = some s' ∧
+            s'.requestId = (if r > 0 ∧ r ≤ (stateOf g i).requestId then (stateOf g i).requestId
+              else newId (stateOf g i) r) := by
+          rw [setState_report g i r c h0]
+          exact report_find_id (ensure g i) i (stateOf g i) r c (ensure_find g i)
+        obtain ⟨s', hs', hid'⟩ := hreg
+        have hns : ¬ (r > 0 ∧ r ≤ (stateOf g i).requestId) := by
+          intro hs
+          rw [setState_report g i r c h0, report_stale _ _ _ _ _ hs] at he; cases he
+        rw [if_neg hns] at hid'
+        rw [hs']
+        simp only
+        rw [Bool.and_eq_true]
+        constructor
+        · apply decide_eq_true; intro hr; rw [hid']; unfold newId; rw [if_pos hr]
+        · cases hf : find i g.states with
+          | none => rfl
+          | some s0 =>
+            simp only
+            apply decide_eq_true
+            have hst : stateOf g i = s0 := by unfold stateOf; rw [hf]
+            rw [hst] at hid' hns
+            rw [hid']; unfold newId
+            split <;> omega
+      · rfl
+  have cl8 : clRemoval g i r c (setState g i r c).2 (setState g i r c).1 = true := by
+    unfold clRemoval; apply decide_eq_true
+    intro hneg
+    cases hf : find i g.states with
+    | none => rw [setState_remove_none g i r c hneg hf]; exact ⟨hf, rfl⟩
+    | some s => rw [setState_remove_some g i r c s hneg hf]; exact ⟨find_erase_self h.1.nodup, rfl⟩
+  have cl9 : clLatest g i r c (setState g i r c).2 (setState g i r c).1 = true := by
+    unfold clLatest; apply decide_eq_true
+    intro h0 he
+    exact setState_latest g i r c h.1 hc h0 he
+  have cl10 : clOthers others g i r c (setState g i r c).2 (setState g i r c).1 = true := by
+    unfold clOthers
+    rw [List.all_eq_true]
+    intro j _
+    by_cases hj : j = i
+    · simp [hj]
+    · simp only [hj, decide_false, Bool.false_or]
+      unfold sameInst
+      exact decide_eq_true (setState_find_other g i j r c hj)
+  unfold violations clauses
+  simp only [List.filterMap_cons, List.filterMap_nil, cl1, cl2, cl3, cl4, cl5, cl6, cl7, cl8, cl9, cl10, if_true]
+
+/-- `Resize(n)` breaks no clause of `resizeViolations` -/
+theorem c08_judge_sound_resize (g : G) (n : Int) : resizeViolations g n (resize g n).1 = [] := by
+  unfold resizeViolations resize
+  split <;> simp_all
+
+/-! ## 4. token-bucket schemas -/
+
+/-- **Σ grants in any interval ≤ burst + qps·T.** From ANY bucket state (so: for any interval of any longer
+    history), a sequence of acquisitions whose clock readings are in order is granted in total at most
+    `burst + qps·(t_last − t0)`, `t0` being any instant not before the limiter's last reading and not after
+    the first reading of the interval (e.g. the first reading itself). -/
+theorem c08_tokens_rate (reqs : List (List Int × Int)) (b : Bucket) (t0 : Int) (hq : 0 ≤ b.qps) (hb : 0 ≤ b.burst)
+    (htok : 0 ≤ b.tokens) (hm : Mono b t0) (hok : TimesOk t0 reqs) :
+    (((runAcq b reqs).2 : Int) : Rat) ≤ (b.burst : Rat) + tokensFromNs b.qps (endTime t0 reqs - t0) := by
+  obtain ⟨p1, p2, p3, p4, p5, _⟩ := runAcq_potential reqs b t0 hq hm hok
+  have h1 := avail_le_burst b t0
+  have h2 := avail_nonneg (runAcq b reqs).1 (endTime t0 reqs) (by rw [p3]; exact hq) (by rw [p4]; exact hb) (p5 htok) p2
+  grind
+
+/-- the same for an interval in the middle of a history that started with a new limiter -/
+theorem c08_tokens_rate_interval (qps burst : Int) (pre reqs : List (List Int × Int)) (t0 : Int)
+    (hq : 0 ≤ qps) (hb : 0 ≤ burst) (hpre : TimesOk t0 pre) (hok : TimesOk (endTime t0 pre) reqs) :
+    (((runAcq (runAcq (Bucket.init qps burst) pre).1 reqs).2 : Int) : Rat) ≤
+      (burst : Rat) + tokensFromNs qps (endTime (endTime t0 pre) reqs - endTime t0 pre) := by
+  have hm0 : Mono (Bucket.init qps burst) t0 := fun l hl => by simp [Bucket.init] at hl
+  obtain ⟨_, p2, p3, p4, p5, _⟩ := runAcq_potential pre (Bucket.init qps burst) t0 hq hm0 hpre
+  have := c08_tokens_rate reqs (runAcq (Bucket.init qps burst) pre).1 (endTime t0 pre)
+    (by rw [p3]; exact hq) (by rw [p4]; exact hb) (p5 (by simp [Bucket.init])) p2 hok
+  rw [p3, p4] at this
+  exact this
+
+/-! ### every interleaving of concurrent callers (granularity: one `TryAcquireN` = one atomic step that reads
+    the clock itself, as in the fixed code; exclusion of `globalTokenBucket.lock` trusted) -/
+
+/-- **Every interleaving**: whatever callers do whatever `TryAcquireN` calls in whatever order, with time
+    passing in between, the tokens granted between two instants are at most `burst + qps·T`. -/
+theorem c08_tokens_rate_conc (steps : List TBStep) (s : TBSys) (hq : 0 ≤ s.b.qps) (hb : 0 ≤ s.b.burst)
+    (htok : 0 ≤ s.b.tokens) (hm : Mono s.b s.clock) :
+    ((tbRun s steps).granted : Rat) ≤
+      (s.granted : Rat) + (s.b.burst : Rat) + tokensFromNs s.b.qps ((tbRun s steps).clock - s.clock) := by
+  obtain ⟨p1, p2, p3, p4, p5, _⟩ := tbRun_potential steps s hq hm
+  have h1 := avail_le_burst s.b s.clock
+  have h2 := avail_nonneg (tbRun s steps).b (tbRun s steps).clock (by rw [p3]; exact hq) (by rw [p4]; exact hb) (p5 htok) p2
+  grind
+
+/-- the invariants `c08_tokens_rate_conc` starts from hold in every reachable state of a new limiter -/
+theorem c08_tokens_conc_reachable (qps burst t0 : Int) (steps : List TBStep) (hq : 0 ≤ qps) :
+    let s := tbRun ⟨t0, Bucket.init qps burst, 0⟩ steps
+    s.b.qps = qps ∧ s.b.burst = burst ∧ 0 ≤ s.b.tokens ∧ Mono s.b s.clock := by
+  have hm0 : Mono (Bucket.init qps burst) t0 := fun l hl => by simp [Bucket.init] at hl
+  obtain ⟨_, p2, p3, p4, p5, _⟩ := tbRun_potential steps ⟨t0, Bucket.init qps burst, 0⟩ hq hm0
+  exact ⟨p3, p4, p5 (by simp [Bucket.init]), p2⟩
+
+/-- **Each grant lies between 0 and the amount asked**; nothing is granted without `accept`; a grant is the ask
+    halved 0, 1, 2 or 3 times (`n, n/2, n/4, n/8`); no error is reported. (Token-bucket arm of `DoAcquire`,
+    any bucket state, any clock readings.) -/
+theorem c08_tokens_grant (st : Store) (inst name : Str) (rid tokens : Int) (nows : List Int) (b : Bucket)
+    (hf : findFC name st.fcs = some (.tb b)) (h0 : 0 ≤ tokens) :
+    let r := (acquireOne st inst rid name tokens nows).2
+    r.err = .none ∧ 0 ≤ r.limit ∧ r.limit ≤ tokens ∧ (r.accept = false → r.limit = 0) ∧
+    (r.accept = true → r.limit = tokens ∨ r.limit = tokens / 2 ∨ r.limit = tokens / 2 / 2 ∨
+      r.limit = tokens / 2 / 2 / 2) := by
+  have hn : ¬ tokens < 0 := by omega
+  simp only [acquireOne, hf, hn, if_false]
+  -- range: the loop lemma with a trivial clock (only its arithmetic part is used)
+  have hrange : 0 ≤ (tbLoop b tokens (nows.take KG.Gen.C08.tbTries)).2.2 ∧
+      (tbLoop b tokens (nows.take KG.Gen.C08.tbTries)).2.2 ≤ tokens ∧
+      ((tbLoop b tokens (nows.take KG.Gen.C08.tbTries)).2.1 = false →
+        (tbLoop b tokens (nows.take KG.Gen.C08.tbTries)).2.2 = 0) := by
+    have : ∀ (l : List Int) (b : Bucket) (t : Int), 0 ≤ t →
+        0 ≤ (tbLoop b t l).2.2 ∧ (tbLoop b t l).2.2 ≤ t ∧ ((tbLoop b t l).2.1 = false → (tbLoop b t l).2.2 = 0) := by
+      intro l
+      induction l with
+      | nil => intro b t ht; simp [tbLoop, ht]
+      | cons now rest ih =>
+        intro b t ht
+        unfold tbLoop
+        simp only []
+        cases hok : (allowN b now t).2 with
+        | true => simp only [if_true]; exact ⟨ht, Int.le_refl _, fun h => by cases h⟩
+        | false =>
+          simp only [Bool.false_eq_true, if_false]
+          by_cases hz : t / KG.Gen.C08.tbDivisor ≤ 0
+          · simp only [hz, if_true]; exact ⟨Int.le_refl _, ht, fun _ => trivial⟩
+          · simp only [hz, if_false]
+            obtain ⟨a1, a2, a3⟩ := ih (allowN b now t).1 (t / KG.Gen.C08.tbDivisor) (by omega)
+            have : t / KG.Gen.C08.tbDivisor ≤ t := by rw [tbDivisor_eq]; omega
+            exact ⟨a1, by omega, a3⟩
+    exact this _ b tokens h0
+  refine ⟨trivial, hrange.1, hrange.2.1, hrange.2.2, ?_⟩
+  intro hacc
+  obtain ⟨k, hk, e⟩ := tbLoop_accept_halving _ b tokens hacc
+  have hlen : (nows.take KG.Gen.C08.tbTries).length ≤ 4 := by
+    rw [List.length_take]; exact Nat.min_le_left _ _
+  rw [e]
+  have hk4 : k < 4 := by omega
+  have hd := tbDivisor_eq
+  match k, hk4 with
+  | 0, _ => left; rfl
+  | 1, _ => right; left; simp [halve, hd]
+  | 2, _ => right; right; left; simp [halve, hd]
+  | 3, _ => right; right; right; simp [halve, hd]
+
+/-- **Negative asks are refused** (both schema types): an error, nothing granted, nothing changed. -/
+theorem c08_tokens_negative (st : Store) (inst name : Str) (rid tokens : Int) (nows : List Int) (fc : FC)
+    (hf : findFC name st.fcs = some fc) (hneg : tokens < 0) :
+    acquireOne st inst rid name tokens nows = (st, ⟨false, 0, .negativeTokens⟩) := by
+  simp only [acquireOne, hf, hneg, if_true]
+
+/-- the max-in-flight arm of `DoAcquire` maps `(accept, latest, err)` of `SetState` to the reply:
+    error ⇒ refused with the error; accept ⇒ `limit = ask`; otherwise `limit = latest` -/
+theorem c08_acquire_mif (st : Store) (inst name : Str) (rid tokens : Int) (nows : List Int) (g : G)
+    (hf : findFC name st.fcs = some (.mif g)) (h0 : 0 ≤ tokens) :
+    let s := setState g inst rid tokens
+    acquireOne st inst rid name tokens nows =
+      ({ st with fcs := putFC name (.mif s.1) st.fcs },
+       match s.2.err with
+       | .requestIDTooOld => ⟨false, 0, .requestIDTooOld⟩
+       | .none => if s.2.accept then ⟨true, tokens, .none⟩ else ⟨false, s.2.latest, .none⟩) := by
+  have hn : ¬ tokens < 0 := by omega
+  simp only [acquireOne, hf, hn, if_false]
+  cases (setState g inst rid tokens).2.err with
+  | none => simp only []; split <;> rfl
+  | requestIDTooOld => rfl
+
+/-- the judge for grants (`grantViolations`) is satisfied by every token-bucket acquisition of the model -/
+theorem c08_judge_sound_grant (st : Store) (inst name : Str) (rid tokens : Int) (nows : List Int) (b : Bucket)
+    (hf : findFC name st.fcs = some (.tb b)) :
+    grantViolations tokens (acquireOne st inst rid name tokens nows).2 = [] := by
+  by_cases hneg : tokens < 0
+  · rw [c08_tokens_negative st inst name rid tokens nows _ hf hneg]
+    have : ¬ 0 ≤ tokens := by omega
+    simp [grantViolations, hneg, this]
+  · have h0 : 0 ≤ tokens := by omega
+    obtain ⟨a1, a2, a3, a4, a5⟩ := c08_tokens_grant st inst name rid tokens nows b hf h0
+    unfold grantViolations
+    rw [if_pos (fun h => absurd h hneg), if_pos (fun _ _ => ⟨a2, a3⟩), if_pos (fun _ _ h => a5 h),
+      if_pos (fun _ _ h => a4 h)]
+    rfl
+
+/-! ### why the clock has to be read inside the critical section (regression witness of the repaired defect
+    `C08-stale-clock-overgrant`): the model of `rate.Limiter` itself, fed a stale reading, over-grants -/
+
+/-- `qps = 100, burst = 1`: calls at 9058 ms (1 token), then a reading that is 2 ms STALE (9056 ms, refused, but the
+    limiter's clock moves back), then 9067 ms (1 token): two tokens within 9 ms, more than `1 + 100·0.009`. -/
+theorem c08_tokens_stale_reading_overgrants :
+    let b0 := Bucket.init 100 1
+    let r1 := allowN b0 9058000000 1
+    let r2 := allowN r1.1 9056000000 2
+    let r3 := allowN r2.1 9067000000 1
+    r1.2 = true ∧ r2.2 = false ∧ r3.2 = true ∧
+    ¬ ((2 : Rat) ≤ (1 : Rat) + tokensFromNs 100 (9067000000 - 9058000000)) := by
+  have e1 : ((1:Rat) - 1) = 0 := by grind
+  have e2 : ¬ ((0:Rat) + 11000000 * 100 / 1000000000 < 1) := by grind
+  have s1 : allowN (Bucket.init 100 1) 9058000000 1 =
+      ({ qps := 100, burst := 1, tokens := 0, last := some 9058000000 }, true) := by
+    simp [allowN, advance, Bucket.init, e1]
+  have s2 : allowN { qps := 100, burst := 1, tokens := 0, last := some 9058000000 } 9056000000 2 =
+      ({ qps := 100, burst := 1, tokens := 0, last := some 9056000000 }, false) := by
+    simp [allowN, advance, ratMin, tokensFromNs, nsPerSec]
+  have s3 : (allowN { qps := 100, burst := 1, tokens := 0, last := some 9056000000 } 9067000000 1).2 = true := by
+    simp [allowN, advance, ratMin, tokensFromNs, nsPerSec, e2, e1]
+  simp only [s1, s2, s3, true_and]
+  simp only [tokensFromNs, nsPerSec]
+  grind
+
+/-! ## 5. non-vacuity: the hypotheses are met by concrete, non-trivial states, and the branches are live -/
+
+example : run (G.init 100) demoOps = { max := 50, count := 70, states := [(i1, ⟨40, 2⟩), (i2, ⟨30, 1⟩)] } := by decide
+example : SafeRun (G.init 100) demoOps := (c08_seq_bounded 100 demoOps (by decide) (by
+  intro op h
+  simp only [demoOps, List.mem_cons, List.mem_nil_iff, or_false] at h
+  rcases h with rfl | rfl | rfl | rfl <;> (unfold Bounded InI32; omega))).2
+/-- the decrease is applied although the total (90, then 70) is above the lowered limit 50 … -/
+example : (setState (run (G.init 100) (demoOps.take 3)) i1 2 40).2 = ⟨false, 40, .none⟩ := by decide
+/-- … an increase is rolled back … -/
+example : setState (run (G.init 100) demoOps) i2 2 31 =
+    ({ max := 50, count := 70, states := [(i1, ⟨40, 2⟩), (i2, ⟨30, 2⟩)] }, ⟨false, 30, .none⟩) := by decide
+/-- … a stale id is refused, exactly at the limit is "applied, not accepted", below it is accepted, removal -/
+example : (setState (run (G.init 100) demoOps) i2 1 5).2 = ⟨false, 5, .requestIDTooOld⟩ := by decide
+example : (setState (G.init 100) i1 1 100).2 = ⟨false, 100, .none⟩ := by decide
+example : (setState (G.init 100) i1 1 99).2 = ⟨true, 99, .none⟩ := by decide
+example : (setState (run (G.init 100) demoOps) i1 (-1) (-1)).1 =
+    { max := 50, count := 30, states := [(i2, ⟨30, 1⟩)] } := by decide
+/-- `Pre` really is needed for exactness: with counts near 2^31 above a lowered limit the `int32` total wraps
+    and a raise is accepted (the modular total still holds: `c08_seq_total_mod`) -/
+example : setState { max := 0, count := 2147483647, states := [(i1, ⟨2147483647, 1⟩)] } i2 1 2147483647 =
+    ({ max := 0, count := -2, states := [(i1, ⟨2147483647, 1⟩), (i2, ⟨2147483647, 1⟩)] }, ⟨true, 2147483647, .none⟩) := by
+  decide
+example : ¬ Pre { max := 0, count := 2147483647, states := [(i1, ⟨2147483647, 1⟩)] } i2 2147483647 := by decide
+/-- interleavings exist: two racing removals and a report -/
+example : Interleave [[.set i1 (-1) (-1)], [.set i1 (-1) (-1), .set i1 5 7]]
+    [.set i1 (-1) (-1), .set i1 (-1) (-1), .set i1 5 7] :=
+  .step _ 1 _ [.set i1 5 7] _ rfl (.step _ 0 _ [] _ rfl (.step _ 1 _ [] _ rfl (.done _ (by decide))))
+/-- token side: the hypotheses of `c08_tokens_rate` hold for a new limiter and an ordered history -/
+example : TimesOk 0 [([0, 0, 1, 2], 25), ([5, 5, 5, 5], 3)] := by simp [TimesOk, Chain, lastFrom]
+example : Mono (Bucket.init 10 10) 0 := fun l hl => by simp [Bucket.init] at hl
 
 end KG.Props.C08
